@@ -635,6 +635,7 @@ class Rendering:
     def __init__(self, held, ch, block_subset=None):
         self.h = held
         self.ch = ch
+        self.whole = block_subset is None
         self.items = []       # (start, end_of_block, event)
         for i, e in enumerate(held.blocks):
             if block_subset is not None and i not in block_subset:
@@ -698,7 +699,7 @@ class Rendering:
         # the first / last event of the channel: where it starts or ends away from zero with nothing next to it (only a
         # re-read sequence can hold such an event: the reader extrapolates `last` of a raster shape), the export steps
         # to zero within the implementation's 1e-9 s nudge, so the rendering is two-valued at that instant
-        if self.items:
+        if self.items and self.whole:     # (not for a restriction to some blocks: its ends are cuts, not ends)
             s0, e0, g0 = self.items[0]
             ts0, vs0 = event_corners(g0, self.h.raster)
             if vs0[0] != 0:
